@@ -979,7 +979,7 @@ def _run(ctx):
                 cf = [7]
                 yi = [7] * len(xi)
             # abscissae: same dtype as the samples; for unsigned samples also signed abscissae, and uint64 sample indices
-            for xdt in ([dt] if dt != "uint8" else ["int64", "uint8", "uint64", "uint32"]):
+            for xdt in ([dt, "uint64", "int32", "float32"] if dt != "uint8" else ["int64", "uint8", "uint64", "uint32", "uint16"]):
                 desc = {"fn": "non_uniform_savgol", "window": window, "polynom": order, "x": xi, "y": yi, "dtype": dt,
                         "x_dtype": xdt}
                 count("smoother_dtype_cases")
@@ -988,15 +988,18 @@ def _run(ctx):
                         import warnings
                         with warnings.catch_warnings():
                             warnings.simplefilter("ignore")
-                            out = smooth.non_uniform_savgol(mk(xi) if xdt == dt else np.array(xi, dtype=xdt), mk(yi), window, order)
+                            out = smooth.non_uniform_savgol(mk(xi) if xdt == dt else np.array(xi, dtype=xdt), mk(yi), window, order)   # xi >= 0
                     out = as_array(out, (len(xi),), "non_uniform_savgol", kinds="f")
+                    ref_ = smooth.non_uniform_savgol(np.array(xi, dtype=float), np.array(yi, dtype=float), window, order)
                     if not float(np.max(np.abs(out - np.array(yi, dtype=float)))) <= 1e-7 * (1 + max(map(abs, yi))):
-                        unsigned = xdt.startswith("uint")
                         ctx.fail("non_uniform_savgol does not reproduce a polynomial on %s abscissae / %s samples" % (xdt, dt),
-                                 desc, {"kind": "savgol_unsigned_abscissae" if unsigned else "savgol_polynomial"})
+                                 desc, {"kind": "savgol_polynomial"})
+                    elif not np.allclose(out, ref_, rtol=0, atol=1e-9 * (1 + max(map(abs, yi)))):
+                        ctx.fail("non_uniform_savgol: the same abscissae stored as %s instead of float64 change the result"
+                                 % xdt, desc, {"kind": "savgol_dtype"})
                 except Exception as e:  # noqa
                     ctx.fail("non_uniform_savgol on %s abscissae / %s samples: %s" % (xdt, dt, e if isinstance(e, BadOutput) else repr(e)),
-                             desc, {"kind": "savgol_unsigned_abscissae" if xdt.startswith("uint") else "savgol_exception"})
+                             desc, {"kind": "savgol_exception"})
         if dt != "list_int":
             sig = mk([5 + (i % 4) for i in range(40)])
             desc = {"fn": "smooth_interpolate_savgol", "n": 40, "dtype": dt, "window": 7, "order": 2, "nan_positions": [],
